@@ -16,7 +16,7 @@ from vmon.libutil import load_definition, monitored
 
 LEVEL = "exploration"
 SHARDS = {"quick": 16, "thorough": 16}
-MUST = ["yielded.clean", "yielded.flagged", "withheld.bad", "model.exact", "model.under", "model.over", "model.negative",
+MUST = ["lockstep.rounds", "yielded.clean", "yielded.flagged", "withheld.bad", "model.exact", "model.under", "model.over", "model.negative",
         "reads.logged", "reads.negative_width", "reads.past_end", "repeated.streams", "reparse.same_raw_object"]
 RULE = ("case = (generated document, packet whose length is what the definition consumes -9..+9 bytes, or whose "
         "length-controlling fields make a computed size 0 or negative, parse_bad_pkts in {True, False}); each packet is "
@@ -169,6 +169,45 @@ def repeated(ctx, defn, info, raw, out, dyn, rng, wit_extra):
                               f"copy {k + 1} of {n} identical length-mismatched packets was yielded without the warning (flags {flagged})", wit)
 
 
+def lockstep(ctx, defn, clean, bad, wit_extra):
+    """two generators of one definition consumed in lock step, the warnings of each round recorded by one
+    warnings.catch_warnings(record=True) block around the round (the usual shape of a monitoring loop): the round in which
+    the mismatched packet is delivered - and only that round - carries the mismatch warning, as when the stream is consumed
+    alone; the other generator ending earlier must not disturb that"""
+    import warnings
+    sa, sb = clean * 2, clean * 2 + bad + clean
+    alone = []
+    g = defn.packet_generator(sb)
+    for _ in range(5):
+        s = monitored(next, g)
+        if s.exc is not None:
+            break
+        alone.append(bool([w for w in s.warnings if harness.is_length_warning(w)]))
+    g.close()
+    if alone != [False, False, True, False]:
+        return        # the single-stream behaviour is judged by offer(); nothing to compare the lock step with
+    ga, gb = defn.packet_generator(sa), defn.packet_generator(sb)
+    rounds = []
+    sentinel = object()
+    for _ in range(5):
+        with warnings.catch_warnings(record=True) as w:
+            warnings.simplefilter("always")
+            next(ga, sentinel)
+            b = next(gb, sentinel)
+        if b is sentinel:
+            break
+        rounds.append(bool([x for x in w if harness.is_length_warning(x)]))
+    ga.close()
+    gb.close()
+    ctx.count("evaluations")
+    ctx.count("lockstep.rounds", len(rounds))
+    ctx.sig("lockstep", "two-generators")
+    if rounds != alone:
+        ctx.violation("lockstep/mismatch-warning-in-wrong-round" if any(rounds) else "lockstep/mismatch-warning-lost",
+                      f"mismatch warning per round {rounds} when another generator of the definition is advanced in the same rounds; {alone} when consumed alone",
+                      dict(wit_extra, rounds=rounds, alone=alone, bad=bad, clean=clean))
+
+
 def reparse_same_raw_object(ctx, defn, info, raw, out, wit_extra):
     """a RawPacketData object that has been parsed once is wrapped in a new CCSDSPacket and parsed again (e.g. the
     raw_data of an unrecognized packet's partial data handed to another definition): the cursor accounting of the second
@@ -209,6 +248,7 @@ def run(ctx):
             continue
         dyn = has_dynamic(doc)
         pb = gen.PacketBuilder(doc, rng)
+        first_clean = first_bad = None
         for i in range(ctx.size(14, 30)):
             raw, meta = pb.build(None if rng.random() < 0.3 else rng.choice([c.name for c in doc.containers]),
                                  length_delta=rng.choice([0, 0, 0, 1, -1, 2, -2, 9, -9, 3, -4]))
@@ -219,6 +259,13 @@ def run(ctx):
                 continue
             for parse_bad in (True, False):
                 offer(ctx, ld.value, info, raw, out, parse_bad, dyn, {"doc": d})
+            if out.status == "ok" and out.consumption == "exact" and first_clean is None:
+                first_clean = raw
+            if out.status == "ok" and out.consumption in ("under",) and first_bad is None:
+                first_bad = raw
+            if first_clean is not None and first_bad is not None and first_clean is not True:
+                lockstep(ctx, ld.value, first_clean, first_bad, {"doc": d})
+                first_clean = True       # once per document
             if i % 3 == 0 and out.status == "ok":
                 repeated(ctx, ld.value, info, raw, out, dyn, rng, {"doc": d})
                 reparse_same_raw_object(ctx, ld.value, info, raw, out, {"doc": d})
